@@ -4,6 +4,7 @@ CONSTANTS
   DBs2 = {"d1"}
   RPs = {"r1", "autogen"}
   VirtOrgs = {1}
+  CollideOrgs = {}
   MaxOps = 4
   MaxMaps = 2
   KeepObs = TRUE
